@@ -2,7 +2,7 @@
 # Generates the simulation PKI (run once, offline; the output is committed).  RSA-2048 so that
 # handshake message lengths are deterministic; validity 100 years (rustls reads the wall clock).
 set -e
-OPENSSL=${OPENSSL:-$(command -v openssl || echo /root/miniconda/bin/openssl)}
+OPENSSL=${OPENSSL:-/root/miniconda/bin/openssl}   # needs -not_before/-not_after (OpenSSL >= 3.4)
 mkca() { $OPENSSL req -x509 -newkey rsa:2048 -nodes -keyout $1.key -out $1.pem -not_before 20200101000000Z -not_after 21200101000000Z -subj "/CN=$2" -addext "basicConstraints=critical,CA:TRUE" -addext "keyUsage=critical,keyCertSign,cRLSign" 2>/dev/null; }
 mkleaf() { # name ca cn san eku
   $OPENSSL req -newkey rsa:2048 -nodes -keyout $1.key -out $1.csr -subj "/CN=$3" 2>/dev/null
@@ -15,3 +15,12 @@ mkleaf server ca_a sim.test "subjectAltName=DNS:sim.test" serverAuth
 mkleaf client_ok ca_c client-ok "subjectAltName=DNS:client-ok" clientAuth
 mkleaf client_other ca_b client-other "subjectAltName=DNS:client-other" clientAuth
 rm -f *.srl
+# added later (existing files were NOT regenerated): a client identity that is a chain — leaf issued by
+# an intermediate CA issued by ca_c; client_chain.pem = leaf + intermediate
+mkint() { # name ca cn
+  $OPENSSL req -newkey rsa:2048 -nodes -keyout $1.key -out $1.csr -subj "/CN=$3" 2>/dev/null
+  printf "basicConstraints=critical,CA:TRUE\nkeyUsage=critical,keyCertSign,cRLSign\n" > $1.ext
+  $OPENSSL x509 -req -in $1.csr -CA $2.pem -CAkey $2.key -CAcreateserial -out $1.pem -not_before 20200101000000Z -not_after 21200101000000Z -extfile $1.ext 2>/dev/null
+  rm -f $1.csr $1.ext
+}
+[ -f ca_c_int.pem ] || { mkint ca_c_int ca_c "Sim Client Intermediate CA"; mkleaf client_chain ca_c_int client-chain "subjectAltName=DNS:client-chain" clientAuth; cat ca_c_int.pem >> client_chain.pem; rm -f *.srl; }
